@@ -41,6 +41,10 @@ class Driver:
       return dict(violation='driver died rc=%d without verdict' % rc)
     r = json.loads(out)
     if 'ok' not in r:
+      try:
+        self.p.kill()
+      except Exception:
+        pass
       self.p.wait()
       self.p = None
     return r
